@@ -478,7 +478,7 @@ def finish_epoch_item(ctx, it):
         else:
             ab = (fl.bit_length(), fl < 0)
         ctx.distinct.add(hash(("epoch", it["kind"], it["dom"]) + ab))
-    if ctx.sample is None and it["dom"] == "pos" and outs[0] is not None:
+    if ctx.sample is None and it["dom"] == "pos" and outs[0] is not None and abs(X) > 1000:
         ctx.sample = {"task": "epoch", "profile": ctx.profile, "input": show(it["v"]),
                       "results": {n: show(o[1]) if len(o) > 1 else "error" for (n, _), o in zip(CORE_OPS, outs) if o}}
 
@@ -816,6 +816,19 @@ def judge_wrongtype(ctx, values):
             if len(o) == 2:
                 ctx.v("%s:wrong-input-type:accepted" % name, observed=show(o[1]), expected="error", **wit)
         ctx.distinct.add(hash(("wrongtype", show(v, 60))))
+    # `now` is outside the property (no statement about the clock): observed only
+    import time
+    t0 = time.time()
+    r = c.eval("[now, (now | gmtime | mktime), (now | todate | fromdate)]", [{"input": None}], take=2, timeout=60)
+    res = r["results"][0]
+    if not res.get("panic") and res["end"][0] == "end" and res["outs"]:
+        n = dec(res["outs"][0][0])
+        nv = numval(n[0])
+        near = nv is not None and abs(float(nv) - t0) < 30
+        ctx.o("now: %s, %s of the driver's clock (observed, not judged)" % (
+            "a float" if isinstance(n[0], float) else "not a float", "within 30 s" if near else "NOT within 30 s"))
+    else:
+        ctx.o("now: failed (observed, not judged)")
 
 
 # ------------------------------------------------------------------------------------------
